@@ -41,6 +41,9 @@ fields in the order `visit_reference_fields` reports them; null fields return be
 * The root loop is one step per root (it runs before the workers are started, so its `try_mark` +
   `push` cannot be interleaved with anything).  The model does NOT require that the workers start after the
   last root — it allows more interleavings than the code has.
+* Not modelled: the `debug_assert!` in `trace` / `run` that a referenced object lies in the heap or the
+  read-only region (objects are abstract here), and the results a task accumulates per processed object
+  (`live_pages`, `marked_bytes`) — "processed" is the event they hang on.
 * When a worker may stop (`Terminator::try_terminate`) is the other half of C12 (`Term/Model.lean`); here a
   worker is simply `idle` between two objects.
 
